@@ -61,8 +61,23 @@ def reset (i : Inst) : State :=
 
 def anyIn (n : Nat) (f : Nat → Bool) : Bool := (List.range n).any f
 
-/-- `back_flag` -/
-def backFlag (i : Inst) (s : State) (a : Nat) : Bool := decide (a < i.K) && !(s.avail a)
+/-- `back_flag = (current_node < num_depot) & (available.gather(-1, current_node) == 0)` (both operators
+extracted from the source) -/
+def backFlag (i : Inst) (s : State) (a : Nat) : Bool :=
+  Params.mdcpdpBackDepotCmp.evalNat a i.K && Params.mdcpdpBackAvailCmp.evalNat (if s.avail a then 1 else 0) 0
+/-- `last_depot_flag = sum(available[..., :num_depot]) == 0` (operator extracted from the source) -/
+def lastDepotOf (i : Inst) (av : Nat → Bool) : Bool := Params.mdcpdpLastDepotCmp.evalNat (cnt i.K av) 0
+/-- `done = count_nonzero(available) == 0` (operator extracted from the source) -/
+def doneOf (i : Inst) (av : Nat → Bool) : Bool := Params.mdcpdpDoneCmp.evalNat (cnt i.N av) 0
+/-- `num_loc // 2` of `new_to_deliver` (divisor extracted from the source) -/
+def Inst.pairOff (i : Inst) : Nat := (i.N - i.K) / Params.mdcpdpPairDiv
+/-- open mode: `(current_node < num_depot) & (td["current_node"] >= num_depot)` — the way back is not charged
+(both operators extracted from the source) -/
+def openZero (i : Inst) (cur a : Nat) : Bool :=
+  i.openMode && Params.mdcpdpOpenToCmp.evalNat a i.K && Params.mdcpdpOpenFromCmp.evalNat cur i.K
+/-- length of the last dimension of the `capacity` tensor `MDCPDPGenerator._generate` emits for `numDepot` depots
+(extracted from the source: `1`, or `num_depot` once the generator is fixed) -/
+def genCapLen (numDepot : Nat) : Nat := if Params.mdcpdpGenCapPerDepot then numDepot else 1
 
 
 /-- `capacity_flag = current_carry >= current_capacity` (operator extracted from the source) -/
@@ -74,7 +89,7 @@ def carryFlagOf (carry : Int) : Bool := Params.mdcpdpCarryCmp.eval carry 0
 def maskOf (i : Inst) (back : Bool) (avail td : Nat → Bool) (carry : Int) (depot : Nat)
     (doneL : Bool) : Nat → Bool :=
   let capFlag := capFlagOf i carry depot
-  let lastDepot := !(anyIn i.K avail)
+  let lastDepot := lastDepotOf i avail
   let carryFlag := carryFlagOf carry
   fun j =>
     if j < i.K then
@@ -92,7 +107,7 @@ def maskOf (i : Inst) (back : Bool) (avail td : Nat → Bool) (carry : Int) (dep
 /-- `_step` -/
 def step (i : Inst) (s : State) (a : Nat) : State :=
   -- new_to_deliver = (current_node + num_loc // 2) % (num_loc + num_depot)
-  let newTD := (a + i.h) % i.N
+  let newTD := (a + i.pairOff) % i.N
   let back := backFlag i s a
   let avail' := upd s.avail a false
   let td' := upd s.toDeliver newTD true
@@ -102,14 +117,14 @@ def step (i : Inst) (s : State) (a : Nat) : State :=
   let depot' := if back then a else s.depot
   -- step length: 0 between two depots; 0 for the way back in open mode
   let sl1 := if a < i.K ∧ s.cur < i.K then 0 else i.D s.cur a
-  let sl2 := if i.openMode ∧ a < i.K ∧ i.K ≤ s.cur then 0 else sl1
+  let sl2 := if openZero i s.cur a then 0 else sl1
   -- current_length.scatter_add_(-1, current_depot, current_step_length)
   let len' := upd s.len depot' (s.len depot' + sl2)
   -- arrivetime_record.scatter_(-1, current_node, current_length.gather(-1, current_depot))
   let arrive' := upd s.arrive a (len' depot')
   { cur := a, depot := depot', carry := carry', len := len', arrive := arrive',
-    toDeliver := td', avail := avail', mask := maskOf i back avail' td' carry' depot' (!(anyIn i.N avail')),
-    done := !(anyIn i.N avail') }
+    toDeliver := td', avail := avail', mask := maskOf i back avail' td' carry' depot' (doneOf i avail'),
+    done := doneOf i avail' }
 
 def env : Env Inst State where
   reset := reset
